@@ -32,7 +32,13 @@ def human_strikes(N, humans, I, gap, t0, rows, early=0.004, shift_after=None, sh
 class C14(scen.PairProp):
     id = "C14"
     lean_module = "Wheatley.Props.C14"
-    theorems = []
+    theorems = ["Wheatley.C14.wake_is_inner_plus_delay",
+                "Wheatley.C14.delay_after_wait",
+                "Wheatley.C14.poll_adds_one_step",
+                "Wheatley.C14.regression_origin_free",
+                "Wheatley.C14.position_origin_free",
+                "Wheatley.C14.real_time_origin_free",
+                "Wheatley.C14.lerp_origin_free"]
     level_text = ("theorems (any ordered field): the waiting wrapper hands the inner rhythm 'now - delay' and wakes at "
                   "inner time + delay; delay never decreases and grows only by whole polls slept; the regression is "
                   "translation-equivariant (moving every time by c moves the start by c and leaves the interval), so "
